@@ -752,7 +752,8 @@ fn main() {
     }
     // the size precondition is sharp: 4096 tables make SearchRange::compute's u16 conversion panic
     {
-        let ops: Vec<Op> = (0..4096u32).map(|i| Op::Add(0x4100_0000 + i, vec![])).collect();
+        // descending tags: every add_raw / sort insertion of the model then hits the front of its list (linear total cost)
+        let ops: Vec<Op> = (0..4096u32).rev().map(|i| Op::Add(0x4100_0000 + i, vec![])).collect();
         let (built, _) = run_builder(&ops);
         st.evaluations += 1;
         st.v.insert("build_with_4096_tables".into(), match &built {
